@@ -150,6 +150,55 @@ const PGP_LINES: &[&str] = &[
     "-----BEGIN PGP SIGNED MESSAGE-----", "Hash: SHA512", "", "Origin: Debian", "-----BEGIN PGP SIGNATURE-----", "iQIzBAEBCAAdFiEE", "=olY7", "-----END PGP SIGNATURE-----", "- dash-escaped", " -----BEGIN PGP SIGNATURE-----", "x",
 ];
 
+/// A value that no typed field parser accepts and in which most byte offsets fall inside a multi-byte character:
+/// 0-3 ASCII characters (so that both parities / all residues occur), then a run of one 2-, 3- or 4-byte character,
+/// or digits joined by U+2011 (a date typed with non-breaking hyphens). Code that cuts, pads or quotes a value at a
+/// fixed byte offset meets a non-boundary here.
+pub fn multibyte_run(t: &mut Tape) -> String {
+    let mut s = String::new();
+    for _ in 0..t.below(4) {
+        s.push(*t.pick(&['a', '1', '/', ':', '-', '.']));
+    }
+    if t.chance(1, 4) {
+        let groups = t.range(2, 6);
+        for g in 0..groups {
+            if g > 0 {
+                s.push('\u{2011}');
+            }
+            for _ in 0..t.range(1, 4) {
+                s.push(*t.pick(&['0', '1', '2', '9']));
+            }
+        }
+    } else {
+        let c = *t.pick(&['é', '€', '\u{2011}', '😀', 'ß']);
+        for _ in 0..t.range(2, 40) {
+            s.push(c);
+        }
+    }
+    if t.chance(1, 3) {
+        s.push_str(*t.pick(&["/", ".org/debian", " x", "-1"]));
+    }
+    s
+}
+
+/// Replace the value of one field (or of every field) of a deb822-shaped text by multi-byte runs.
+fn with_multibyte_values(t: &mut Tape, base: &str) -> String {
+    let mut lines: Vec<String> = base.split_inclusive('\n').map(|s| s.to_string()).collect();
+    let field_lines: Vec<usize> = (0..lines.len()).filter(|&i| !lines[i].starts_with([' ', '\t', '#']) && lines[i].contains(':')).collect();
+    if field_lines.is_empty() {
+        return multibyte_run(t);
+    }
+    let all = t.chance(1, 3);
+    let one = field_lines[t.below(field_lines.len())];
+    for i in field_lines {
+        if all || i == one {
+            let c = lines[i].find(':').unwrap();
+            lines[i] = format!("{}: {}\n", &lines[i][..c], multibyte_run(t));
+        }
+    }
+    lines.concat()
+}
+
 fn family_text(t: &mut Tape, fam: usize) -> (String, &'static str) {
     match fam {
         0 => {
@@ -161,8 +210,9 @@ fn family_text(t: &mut Tape, fam: usize) -> (String, &'static str) {
             } else {
                 doc::gen_doc(t, &doc::DocOpts::default()).render().text
             };
-            match t.below(4) {
+            match t.below(5) {
                 0 => (base, "deb822:valid"),
+                4 => (with_multibyte_values(t, &base), "deb822:multibyte-value"),
                 1 => (text::mutate(t, &base, c01::WEIGHTED, 6), "deb822:mutated"),
                 2 => {
                     // corrupt one value: make typed field parsers see garbage
@@ -247,7 +297,8 @@ impl PropImpl for C02 {
     fn expected_labels(&self) -> Vec<&'static str> {
         // every entry point must have returned at least once; the fallible ones must have produced both outcomes
         let infallible = ["apt_sources::Signature::from_str", "copyright::License::from_str", "dep3::AppliedUpstream::from_str", "dep3::Forwarded::from_str", "dep3::Origin::from_str", "relations::BuildProfile::from_str", "vcs::ParsedVcs::from_str", "vcs::Vcs::from_field(Cvs)", "vcs::Vcs::from_field(Git)", "vcs::Vcs::from_field(Hg)", "vcs::Vcs::from_field(Svn)"];
-        let mut v = vec![];
+        let mut v = vec!["family:deb822:valid", "family:deb822:mutated", "family:deb822:garbage-value", "family:deb822:prefix", "family:deb822:multibyte-value", "family:multibyte-run", "family:relation:valid",
+            "family:relation:prefix", "family:relation:mutated", "family:relation:token-soup", "family:pgp-shaped", "family:small-token", "family:raw-unicode", "family:scaling"];
         for e in EPS {
             v.push(e.ok);
             if !infallible.contains(&e.name) {
@@ -289,8 +340,9 @@ impl PropImpl for C02 {
                 Hint::Kind(k) => {
                     let invalid = t.chance(1, 5) && k != c20::Kind::Dep3;
                     let base = c20::gen_case(t, k, invalid).text;
-                    let (text, family) = match t.below(4) {
+                    let (text, family) = match t.below(5) {
                         0 | 1 => (base, "deb822:valid"),
+                        4 => (with_multibyte_values(t, &base), "deb822:multibyte-value"),
                         2 => (text::mutate(t, &base, c01::WEIGHTED, 4), "deb822:mutated"),
                         _ => {
                             let garbage = *t.pick(&["", "x y z", "(", "1:", "${", "a [", "\u{1}", "18446744073709551616", "not a url", "é", "-", ":", "=", "a (>> ", "<", "a (= 1) (= 2)", "2024-13-45"]);
@@ -308,12 +360,14 @@ impl PropImpl for C02 {
                 }
                 Hint::Examples(ex) => {
                     let base = t.pick(ex).to_string();
-                    let text = match t.below(3) {
-                        0 => base,
-                        1 => text::mutate(t, &base, c09::WEIGHTED, 3),
-                        _ => format!("{}{}", base, t.pick(SMALL_TOKENS)),
+                    let (text, family) = match t.below(5) {
+                        0 => (base, "small-token"),
+                        1 => (text::mutate(t, &base, c09::WEIGHTED, 3), "small-token"),
+                        2 => (format!("{}{}", base, t.pick(SMALL_TOKENS)), "small-token"),
+                        3 => (multibyte_run(t), "multibyte-run"),
+                        _ => (format!("{}{}", base, multibyte_run(t)), "multibyte-run"),
                     };
-                    return Case { ep, text, family: "small-token" };
+                    return Case { ep, text, family };
                 }
                 Hint::None => {}
             }
@@ -329,6 +383,8 @@ impl PropImpl for C02 {
             "deb822:mutated" => "family:deb822:mutated",
             "deb822:garbage-value" => "family:deb822:garbage-value",
             "deb822:prefix" => "family:deb822:prefix",
+            "deb822:multibyte-value" => "family:deb822:multibyte-value",
+            "multibyte-run" => "family:multibyte-run",
             "relation:valid" => "family:relation:valid",
             "relation:prefix" => "family:relation:prefix",
             "relation:mutated" => "family:relation:mutated",
